@@ -273,8 +273,24 @@ func runOrd2(m *Model, r *RuleResult) {
 	var arr *ssa.Alloc
 	if u, ok := procC.Common().Value.(*ssa.UnOp); ok {
 		if ia, ok := u.X.(*ssa.IndexAddr); ok {
-			if sl, ok := actual(ia.X).(*ssa.Slice); ok {
+			switch sl := actual(ia.X).(type) {
+			case *ssa.Slice:
 				arr, _ = sl.X.(*ssa.Alloc)
+			case *ssa.Call:
+				// built by a helper of the package that returns the slice literal
+				if c := sl.Call.StaticCallee(); c != nil && pkgPathOf(c) == pkgPathOf(layout) {
+					n := 0
+					eachInstr(c, func(in ssa.Instruction) {
+						if ret, ok := in.(*ssa.Return); ok && len(ret.Results) == 1 {
+							n++
+							if s2, ok := ret.Results[0].(*ssa.Slice); ok && n == 1 {
+								arr, _ = s2.X.(*ssa.Alloc)
+							} else {
+								arr = nil
+							}
+						}
+					})
+				}
 			}
 		}
 	}
@@ -346,6 +362,60 @@ func runOrd3(m *Model, r *RuleResult) {
 		r.undecided("anchor:Layout", "-", "autog.Layout", "not found")
 		return
 	}
+	// litSlots: the dynamic callee is element i of a slice literal of size functions scanned from its first to its last element:
+	// which literal index holds which Params field
+	litSlots := func(ci ssa.CallInstruction) map[string]int64 {
+		u, ok := ci.Common().Value.(*ssa.UnOp)
+		if !ok || u.Op != token.MUL {
+			return nil
+		}
+		ia, ok := u.X.(*ssa.IndexAddr)
+		if !ok {
+			return nil
+		}
+		sl, ok := ia.X.(*ssa.Slice)
+		if !ok {
+			return nil
+		}
+		arr, ok := sl.X.(*ssa.Alloc)
+		if !ok || arr.Referrers() == nil {
+			return nil
+		}
+		asc := false
+		for _, l := range loopsContaining(naturalLoops(ci.Parent()), ci.Block()) {
+			if idx, ok, _ := fullScanLoop(l, sl); ok && idx == ia.Index {
+				asc = true
+			}
+		}
+		if !asc {
+			return nil
+		}
+		out := map[string]int64{}
+		for _, ref := range *arr.Referrers() {
+			ia2, ok := ref.(*ssa.IndexAddr)
+			if !ok || ia2.Referrers() == nil {
+				continue
+			}
+			k, isC := constInt(ia2.Index)
+			if !isC {
+				continue
+			}
+			for _, r2 := range *ia2.Referrers() {
+				if st, ok := r2.(*ssa.Store); ok && st.Addr == ssa.Value(ia2) {
+					for _, o := range originsOf(st.Val, 0) {
+						if o.Kind == "fieldload" {
+							for _, f := range []string{"NodeFixedSizeFunc", "NodeSizeFunc"} {
+								if o.Loc == "autog.options.params."+f || o.Loc == igPar+"."+f {
+									out[f] = k
+								}
+							}
+						}
+					}
+				}
+			}
+		}
+		return out
+	}
 	isDynVia := func(in ssa.Instruction, field string) bool {
 		ci, ok := in.(ssa.CallInstruction)
 		if !ok || ci.Common().IsInvoke() || ci.Common().StaticCallee() != nil {
@@ -355,6 +425,9 @@ func runOrd3(m *Model, r *RuleResult) {
 			if o.Kind == "fieldload" && (o.Loc == "autog.options.params."+field || o.Loc == igPar+"."+field) {
 				return true
 			}
+		}
+		if _, ok := litSlots(ci)[field]; ok {
+			return true
 		}
 		return false
 	}
@@ -386,7 +459,16 @@ func runOrd3(m *Model, r *RuleResult) {
 					}
 					ci := a.(ssa.CallInstruction)
 					if ci.Common().StaticCallee() == nil {
-						// one dynamic call site serves both options: only one of the two functions is applied to a node
+						// one dynamic call site serves both options: fine when it applies the elements of a literal
+						// {fixed, per-node} in that order, one after the other
+						if sl := litSlots(ci); sl != nil {
+							if fi, ok1 := sl["NodeFixedSizeFunc"]; ok1 {
+								if si, ok2 := sl["NodeSizeFunc"]; ok2 && fi < si {
+									continue
+								}
+							}
+						}
+						// otherwise only one of the two functions is applied to a node
 						ok = false
 						continue
 					}
